@@ -100,7 +100,7 @@ def run(ctx: C.Ctx):
     n = ctx.quick(1200, 15000)
     reqs, pend = [], []
     for i in range(n):
-        if ctx.deadline and ctx.time_left() < 0:
+        if ctx.done(i):
             break
         ty = make_case(rng)
         try:
@@ -112,6 +112,8 @@ def run(ctx: C.Ctx):
         try:
             neg = (i % 40 == 39)
             x = gen.gen_instance(rng, ty, built)
+            if not ctx.begin_case(i):
+                continue
             case = {'ty': ty, 'inst': repr(x)[:500]}
             ctx.seen('roundtrip', case)
             Cls = built.root
@@ -229,5 +231,3 @@ def _has_nan(v):
     return False
 
 
-def replay(obj):
-    return dict(violated=None, note='re-run ./check C01 with the same seed; the case (class source, instance) is in the file')
